@@ -142,9 +142,37 @@ static int run(const ZI* const* full, int nfull, int mk) {
       TimeZone r = mgr.createForTimeZoneData(da);
       TimeZone own = mgr.createForZoneIndex((uint16_t) i);
       if (!(r == own)) fail("zone saved while its shared processor was bound elsewhere restores to a different zone");
+      // ... and the restored zone answers like the original, whichever accessor is asked first after the other zone used
+      // the shared processor
+      {
+        b.getUtcOffset((acetime_t) 200000000);
+        std::string ab = a.getAbbrev((acetime_t) 200000000);
+        std::string rb = r.getAbbrev((acetime_t) 200000000);
+        if (ab != rb) fail("getAbbrev of a zone whose shared processor was last used by another zone differs from its restored counterpart");
+        b.getUtcOffset((acetime_t) 200000000);
+        if (a.getDeltaOffset((acetime_t) 200000000).toMinutes() != r.getDeltaOffset((acetime_t) 200000000).toMinutes()) fail("getDeltaOffset of a zone whose shared processor was last used by another zone differs from its restored counterpart");
+      }
       TimeZoneData db = b.toTimeZoneData();
       if (db.zoneId != ZONE(full[i + 1]).zoneId()) fail("saved id of the zone bound last is not its own");
       nsave += 2;
+    }
+  }
+  // a user-defined registry that is not sorted but begins with its smallest name, of a size at which a sorted registry
+  // would be searched by bisection: every zone is found by name, by id and by index, and restores to itself
+  {
+    static const int picks[] = {0, 200, 50, 120, 30, 90, 10, 150};
+    std::vector<const ZI*> uns;
+    for (int k : picks) uns.push_back(full[k % nfull]);
+    MGR umgr((uint16_t) uns.size(), uns.data());
+    for (size_t k = 0; k < uns.size(); k++) {
+      char nm[96]; strncpy(nm, (const char*) ZONE(uns[k]).name(), sizeof nm - 1); nm[sizeof nm - 1] = 0;
+      TimeZone byIndex = umgr.createForZoneIndex((uint16_t) k);
+      TimeZone byName = umgr.createForZoneName(nm);
+      TimeZone byId = umgr.createForZoneId(ZONE(uns[k]).zoneId());
+      TimeZone restored = umgr.createForTimeZoneData(byIndex.toTimeZoneData());
+      nsave++;
+      if (byIndex.isError() || byName.isError() || byId.isError() || restored.isError() || !(byName == byIndex) || !(byId == byIndex) || !(restored == byIndex))
+        fail("unsorted user registry: a zone created by name / id / restored from saved data is not the zone created by index");
     }
   }
   // manual zones: grid plus int16 boundaries; error zone
